@@ -9,7 +9,9 @@ index, including a crash of the process at any operation, with any partial-write
 sets (no `Nodup` assumption unless stated) and all histories.
 -/
 import NGF.Model.FileMgr
+import NGF.Model.GenPaths
 import NGF.Proofs.FileMgr
+import NGF.Proofs.GenPaths
 import NGF.Generated.FileFacts
 
 namespace NGF.FileMgr
@@ -97,6 +99,25 @@ theorem facts_stdlib_os_calls : stdlibBodies =
      "Write: _, err := file.Write(contents); return err",
      "Create: return os.Create(name)",
      "Chmod: return file.Chmod(mode)"] := by decide
+
+/-- **The producer/classifier pair of ENOENT.** `StdLibOSFileManager.Remove` hands on the error of `os.Remove`
+in a form that the test of `ReplaceFiles` recognises as "already gone" (returned unchanged and tested with
+`os.IsNotExist` — or any other consistent pair, e.g. wrapped with `%w` and tested with `errors.Is`). This is what
+makes `removeLoop` (= `removeLoopE true`, `remove_loop_is_enoent_tolerant`) the model of the code: wrapping the
+error with `%w` while still testing with `os.IsNotExist` gives `removeLoopE false`, for which recovery is lost
+for ever (`enoent_unrecognised_never_recovers`). -/
+theorem facts_enoent_pair_consistent : enoentRecognised removeErrorShape notExistTest = true := by decide
+
+example : enoentRecognised "wrapped-%w" "os.IsNotExist" = false ∧ enoentRecognised "wrapped-%w" "errors.Is" = true ∧
+    enoentRecognised "wrapped-opaque" "errors.Is" = false := by decide
+
+/-- `ClearFolders` keeps an entry iff its FULL path (`filepath.Join(folder, name)`) is an element of
+`ignoreFilePaths` (`slices.Contains`, i.e. equality — not a suffix or base-name match), and the list holds
+absolute paths. -/
+theorem facts_ignore_match_full_path :
+    ignoreMatchExpr = "slices.Contains(ignoreFilePaths, entryPath)" ∧
+    entryPathExpr = "filepath.Join(path, entry.Name())" ∧
+    ∀ p ∈ ignoreFilePaths, p.toList.head? = some '/' := by decide
 
 /-- every path the generator can produce is built from a managed folder, directly inside it -/
 theorem paths_in_managed_folders :
@@ -219,6 +240,69 @@ theorem next_success_exact_whole_disk (calls : List (Sched × List File)) (s : S
     ∀ q, get (replaceFiles sch (runCalls s calls) F).st.fs q = expectAfter F q none :=
   fun q => next_success_exact [] calls s ht sch F hok q (by simp)
 
+private def kpL : File := ⟨"/etc/nginx/secrets/ssl_keypair_ns_l.pem", [75, 69, 89], .secret⟩
+private def hcL : File := ⟨"/etc/nginx/conf.d/http.conf", [104, 49], .regular⟩
+
+/-! ## 4b. Liveness of recovery: a call during which nothing is injected succeeds -/
+
+/-- the model's removal loop is the ENOENT-tolerant one (see `facts_enoent_pair_consistent`) -/
+theorem remove_loop_is_enoent_tolerant (sch : Sched) (s : St) (F : List File) :
+    replaceFilesE true sch s F = replaceFiles sch s F := replaceFilesE_true sch s F
+
+/-- **`ReplaceFiles` without an injected fault returns nil — from EVERY state**, in particular from every
+state reachable by any history of failed, partial or crashed calls: tracked paths that are not on disk
+(failed `Create`, half-done removal loop, a file somebody else removed) are tolerated. "The next successful
+replacement leaves exactly the latest set" is therefore not vacuous: the next fault-free replacement IS
+successful. -/
+theorem fault_free_replace_succeeds (s : St) (F : List File) : (replaceFiles noFaults s F).out = .ok :=
+  replaceFiles_noFaults s F
+
+/-- … after any history, and then the disk is exactly the new set (outside the bootstrap files). -/
+theorem fault_free_replace_recovers (B : List String) (calls : List (Sched × List File)) (s : St)
+    (ht : Tracked B s) (F : List File) :
+    (replaceFiles noFaults (runCalls s calls) F).out = .ok ∧
+    ∀ q, q ∉ B → get (replaceFiles noFaults (runCalls s calls) F).st.fs q = expectAfter F q none :=
+  ⟨fault_free_replace_succeeds _ F, next_success_exact B calls s ht noFaults F (fault_free_replace_succeeds _ F)⟩
+
+/-- the same for the whole control plane: while it is up, a fault-free replacement succeeds -/
+theorem system_fault_free_replace_succeeds (fs0 : FS) (steps : List Step) (F : List File) :
+    let s := sysRun ⟨⟨fs0, []⟩, false⟩ steps
+    s.up = true → (sysStep s (.replace noFaults F)).2 = .ok := by
+  intro s hup
+  unfold sysStep
+  simp only [hup, if_true]
+  exact fault_free_replace_succeeds s.st F
+
+/-- create of the first file fails: its path is tracked and not on disk -/
+private def createFails : Sched := fun k => if k = 0 then some .eio else none
+
+example : (replaceFiles createFails ⟨[], []⟩ [hcL, kpL]).out = .failed ∧
+    (replaceFiles createFails ⟨[], []⟩ [hcL, kpL]).st.last = [hcL.path] ∧
+    (replaceFiles noFaults (replaceFiles createFails ⟨[], []⟩ [hcL, kpL]).st [hcL]).out = .ok := by decide
+
+/-- **Witness for the variant that does not recognise ENOENT** (`Remove` wraps the error with `%w`,
+`ReplaceFiles` still asks `os.IsNotExist`): one failed `Create` leaves a tracked path that is not on disk … -/
+theorem enoent_unrecognised_witness :
+    let r := replaceFilesE false createFails ⟨[], []⟩ [hcL, kpL]
+    r.out = .failed ∧ r.st.last = [hcL.path] ∧ get r.st.fs hcL.path = none := by decide
+
+/-- … and from then on EVERY replacement fails, with no fault injected, for every file set, and leaves the
+state as it is — so also the one after it, and so on: the disk never reaches the latest set again. -/
+theorem enoent_unrecognised_never_recovers (sets : List (List File)) (F : List File) :
+    let s1 := (replaceFilesE false createFails ⟨[], []⟩ [hcL, kpL]).st
+    let sn := sets.foldl (fun s G => (replaceFilesE false noFaults s G).st) s1
+    sn = s1 ∧ (replaceFilesE false noFaults sn F).out = .failed := by
+  intro s1 sn
+  have h1 : s1.last = [hcL.path] ∧ get s1.fs hcL.path = none := by decide
+  have hstuck : ∀ G, (replaceFilesE false noFaults s1 G).out = .failed ∧ (replaceFilesE false noFaults s1 G).st = s1 :=
+    fun G => replaceFilesE_false_stuck s1 hcL.path [] G h1.1 h1.2
+  have hsn : sn = s1 := by
+    show sets.foldl (fun s G => (replaceFilesE false noFaults s G).st) s1 = s1
+    induction sets with
+    | nil => rfl
+    | cons G r ih => rw [List.foldl_cons, (hstuck G).2]; exact ih
+  exact ⟨hsn, by rw [hsn]; exact (hstuck F).1⟩
+
 /-! ## 5. Start-up cleanup, crashes and the whole control plane -/
 
 /-- `ClearFolders` never touches a bootstrap file and never creates anything — under every schedule. -/
@@ -245,6 +329,29 @@ theorem clear_ok_only_bootstrap (sch : Sched) (fs : FS)
 /-- Without faults `ClearFolders` completes. -/
 theorem clear_without_faults_ok (fs : FS) (folders : List String) :
     (clearFolders noFaults fs folders).out = .ok := clearLoop_noFaults folders 0 fs
+
+/-- **What start-up keeps is decided by the FULL path.** A completed `ClearFolders(ConfigFolders)` keeps a file
+of the managed folders iff its full path is an element of `ignorePaths`; every other file — also one whose
+NAME equals, ends with or contains a bootstrap file name, in any folder — is removed. -/
+theorem clear_keeps_iff_full_path (sch : Sched) (fs : FS) (hin : InFolders fs)
+    (hok : (clearFolders sch fs managedFolders).out = .ok) (q : String) :
+    get (clearFolders sch fs managedFolders).fs q ≠ none ↔ (get fs q ≠ none ∧ q ∈ ignorePaths) := by
+  constructor
+  · intro hq
+    have hi := clear_ok_only_bootstrap sch fs hin hok q hq
+    exact ⟨by rw [← clear_keeps_bootstrap sch fs managedFolders q hi]; exact hq, hi⟩
+  · rintro ⟨hq, hi⟩
+    rw [clear_keeps_bootstrap sch fs managedFolders q hi]; exact hq
+
+/-- stale files whose names end with / equal / contain a bootstrap name do not survive a restart -/
+example :
+    let o : FileObj := ⟨[1], 0o644⟩
+    let fs : FS := [("/etc/nginx/main-includes/main.conf", o), ("/etc/nginx/main-includes/xmain.conf", o),
+      ("/etc/nginx/main-includes/main.conf.bak", o), ("/etc/nginx/conf.d/main.conf", o),
+      ("/etc/nginx/conf.d/mgmt.conf", o), ("/etc/nginx/includes/SnippetsFilter_http_default_main.conf", o),
+      ("/etc/nginx/secrets/deployment_ctx.json", o)]
+    let r := clearFolders noFaults fs managedFolders
+    r.out = .ok ∧ keys r.fs = ["/etc/nginx/main-includes/main.conf"] := by decide
 
 /-- **Crash at any operation, then start-up cleanup.** Let the disk hold only files of the managed
 folders; run `ReplaceFiles` under ANY schedule — in particular one that kills the process at operation
@@ -403,5 +510,297 @@ theorem next_success_exact_partial (B : List String) (s : St) (ht : Tracked B s)
       · exact hlq h
       · exact hq h
     simp [hlq, this]
+
+/-! ## 8. The generated file SET: `GeneratorImpl.Generate` inside the model
+
+`NGF.GenPaths.generatedEntries` mirrors `Generate` / `executeConfigTemplates` / `generateMgmtFiles` (which files,
+in which folder, of which type); `Objs.toIn` adds the name manglings (key pair / bundle ids, SnippetsFilter and
+policy include names). The hypotheses `PathsManaged F` and `Nodup` of the theorems above are DISCHARGED here for
+every set the generator can produce from Kubernetes-legal names. -/
+
+section Generated
+open NGF.GenPaths NGF.Mangle
+
+/-- the structure of `Generate` the model mirrors: key pairs, then the configuration templates, then the bundles;
+one file per distinct destination (map keyed by `res.dest`), all regular; the mgmt files only for NGINX Plus -/
+theorem facts_generate_structure :
+    generateSkeleton =
+      ["0|files := make([]file.File, 0)",
+       "0|range conf.SSLKeyPairs",
+       "1|files = append(files, generatePEM(id, pair.Cert, pair.Key))",
+       "0|policyGenerator := policies.NewCompositeGenerator( clientsettings.NewGenerator(), observability.NewGenerator(conf.Telemetry), )",
+       "0|files = append(files, g.executeConfigTemplates(conf, policyGenerator)...)",
+       "0|range conf.CertBundles",
+       "1|files = append(files, generateCertBundle(id, bundle))",
+       "0|return files"] ∧
+    executeConfigTemplatesSkeleton =
+      ["0|fileBytes := make(map[string][]byte)",
+       "0|httpUpstreams := g.createUpstreams(conf.Upstreams, upstreamsettings.NewProcessor())",
+       "0|keepAliveCheck := newKeepAliveChecker(httpUpstreams)",
+       "0|range g.getExecuteFuncs(generator, httpUpstreams, keepAliveCheck)",
+       "1|results := execute(conf)",
+       "1|range results",
+       "2|fileBytes[res.dest] = append(fileBytes[res.dest], res.data...)",
+       "0|var mgmtFiles []file.File",
+       "0|if g.plus",
+       "1|mgmtFiles = g.generateMgmtFiles(conf)",
+       "0|files := make([]file.File, 0, len(fileBytes)+len(mgmtFiles))",
+       "0|range fileBytes",
+       "1|files = append(files, file.File{ Path: fp, Content: bytes, Type: file.TypeRegular, })",
+       "0|files = append(files, mgmtFiles...)",
+       "0|return files"] := by decide +kernel
+
+/-- every `file.File` literal of the generator package with its path expression and its type: exactly the entries
+of `pemEntry`, `crtEntry`, `confEntries` (regular) and `mgmtAll` — in particular WHICH files are `TypeSecret` -/
+theorem facts_generated_file_literals : generatedFileLiterals =
+    ["generator.go:GenerateDeploymentContext: mainIncludesFolder + \"/deployment_ctx.json\" | file.TypeRegular",
+     "generator.go:executeConfigTemplates: fp | file.TypeRegular",
+     "generator.go:generatePEM: generatePEMFileName(id) | file.TypeSecret",
+     "generator.go:generateCertBundle: generateCertBundleFileName(id) | file.TypeRegular",
+     "main_config.go:generateMgmtFiles: secretsFolder + \"/license.jwt\" | file.TypeSecret",
+     "main_config.go:generateMgmtFiles: secretsFolder + \"/mgmt-ca.crt\" | file.TypeSecret",
+     "main_config.go:generateMgmtFiles: secretsFolder + \"/mgmt-tls.crt\" | file.TypeSecret",
+     "main_config.go:generateMgmtFiles: secretsFolder + \"/mgmt-tls.key\" | file.TypeSecret",
+     "main_config.go:generateMgmtFiles: mgmtIncludesFile | file.TypeRegular"] := by decide
+
+/-- the destinations of all `executeResult`s: the five fixed files of `fixedConf` and the include files -/
+theorem facts_execute_dests :
+    executeDests =
+      ["base_http_config.go:executeBaseHTTPConfig: httpConfigFile",
+       "includes.go:createIncludeExecuteResultsFromServers: filename",
+       "includes.go:createIncludeExecuteResults: inc.Name",
+       "main_config.go:executeMainConfig: mainIncludesConfigFile",
+       "maps.go:executeMaps: httpConfigFile",
+       "maps.go:executeStreamMaps: streamConfigFile",
+       "servers.go:executeServers: httpConfigFile",
+       "servers.go:executeServers: httpMatchVarsFile",
+       "split_clients.go:executeSplitClients: httpConfigFile",
+       "stream_servers.go:executeStreamServers: streamConfigFile",
+       "telemetry.go:executeTelemetry: httpConfigFile",
+       "upstreams.go:executeUpstreams: httpConfigFile",
+       "upstreams.go:executeStreamUpstreams: streamConfigFile",
+       "version.go:executeVersion: configVersionFile"] ∧
+    executeFuncs =
+      ["executeMainConfig", "executeBaseHTTPConfig", "g.newExecuteServersFunc(generator, keepAliveCheck)",
+       "newExecuteUpstreamsFunc(upstreams)", "executeSplitClients", "executeMaps", "executeTelemetry",
+       "g.executeStreamServers", "g.executeStreamUpstreams", "executeStreamMaps", "executeVersion"] ∧
+    (fixedConf.map fun e => String.ofList e.path) =
+      ["/etc/nginx/main-includes/main.conf", "/etc/nginx/conf.d/http.conf", "/etc/nginx/conf.d/matches.json",
+       "/etc/nginx/stream-conf.d/stream.conf", "/etc/nginx/conf.d/config-version.conf"] ∧
+    (∀ p ∈ fixedConf.map (fun e => String.ofList e.path), p ∈ generatedFileConsts) := by decide
+
+/-- the include names use the formats of the source: `createSnippetName` with the four `NginxContext` values, the
+ClientSettingsPolicy and ObservabilityPolicy file names -/
+theorem facts_include_name_formats (c : SnipCtx) (k : ObsKind) (ns name : Name) :
+    snippetName c ns name = sprintf snippetNameFmt [c.str, ns, name] ∧
+    snippetNameArgs = ["nc", "nsname.Namespace", "nsname.Name"] ∧
+    nginxContexts = [SnipCtx.main, .http, .server, .location].map (fun c => String.ofList c.str) ∧
+    cspFileFmts = ["ClientSettingsPolicy_%s_%s.conf"] ∧
+    cspName ns name = sprintf cspFileFmt [ns, name] ∧
+    obsFileFmts = ["ObservabilityPolicy_%s_%s_%s.conf", "ObservabilityPolicy_%s_%s_int.conf"] ∧
+    obsFileSuffixes = ["ext", "redirect"] ∧
+    obsName k ns name = sprintf obsFileFmt [ns, name, k.str] ∧
+    obsName .int ns name = sprintf obsIntFileFmt [ns, name] := by
+  refine ⟨?_, by decide, by decide, by decide, ?_, by decide, by decide, ?_, ?_⟩
+  · simp [snippetName, sprintf, snippetNameFmt, lit]
+  · simp [cspName, sprintf, cspFileFmt, lit]
+  · simp [obsName, sprintf, obsFileFmt, lit]
+  · simp [obsName, ObsKind.str, sprintf, obsIntFileFmt, lit]
+
+/-- a non-trivial object set: two key pairs (one name with dots), a bundle, all four snippet contexts, both policy
+kinds, NGINX Plus with client certificate material -/
+def sampleObjs : Objs where
+  keyPairs    := [("default".toList, "cafe-secret".toList), ("team-a".toList, "tls.example.com".toList)]
+  bundles     := [("default".toList, "backend-ca".toList)]
+  snippets    := [(.main, "default".toList, "sf".toList), (.http, "default".toList, "sf".toList),
+                  (.server, "default".toList, "main".toList), (.location, "default".toList, "sf".toList),
+                  (.location, "default".toList, "sf".toList)]
+  csPolicies  := [("default".toList, "csp".toList)]
+  obsPolicies := [(.ext, "default".toList, "obs".toList), (.redirect, "default".toList, "obs".toList),
+                  (.int, "default".toList, "obs".toList)]
+  plus := true
+  mgmtCA := false
+  mgmtCert := true
+  mgmtKey := true
+
+theorem sampleObjs_legal : Legal sampleObjs := by
+  constructor <;> first
+    | decide
+    | (intro p hp; revert p; simp only [sampleObjs, K8sName]; decide)
+
+example : (generatedPaths sampleObjs.toIn).map (fun pt => (String.ofList pt.1, pt.2)) =
+    [("/etc/nginx/secrets/ssl_keypair_default_cafe-secret.pem", .secret),
+     ("/etc/nginx/secrets/ssl_keypair_team-a_tls.example.com.pem", .secret),
+     ("/etc/nginx/main-includes/main.conf", .regular),
+     ("/etc/nginx/conf.d/http.conf", .regular),
+     ("/etc/nginx/includes/SnippetsFilter_main_default_sf.conf", .regular),
+     ("/etc/nginx/includes/SnippetsFilter_http_default_sf.conf", .regular),
+     ("/etc/nginx/includes/SnippetsFilter_http.server_default_main.conf", .regular),
+     ("/etc/nginx/includes/SnippetsFilter_http.server.location_default_sf.conf", .regular),
+     ("/etc/nginx/includes/ClientSettingsPolicy_default_csp.conf", .regular),
+     ("/etc/nginx/includes/ObservabilityPolicy_default_obs_ext.conf", .regular),
+     ("/etc/nginx/includes/ObservabilityPolicy_default_obs_redirect.conf", .regular),
+     ("/etc/nginx/includes/ObservabilityPolicy_default_obs_int.conf", .regular),
+     ("/etc/nginx/conf.d/matches.json", .regular),
+     ("/etc/nginx/stream-conf.d/stream.conf", .regular),
+     ("/etc/nginx/conf.d/config-version.conf", .regular),
+     ("/etc/nginx/secrets/license.jwt", .secret),
+     ("/etc/nginx/secrets/mgmt-tls.crt", .secret),
+     ("/etc/nginx/secrets/mgmt-tls.key", .secret),
+     ("/etc/nginx/main-includes/deployment_ctx.json", .regular),
+     ("/etc/nginx/main-includes/mgmt.conf", .regular),
+     ("/etc/nginx/secrets/cert_bundle_default_backend-ca.crt", .regular)] := by decide +kernel
+
+/-- the model's key pair / bundle / ClientSettingsPolicy paths ARE the manglings C03 ties to the source formats
+(`NGF.Mangle.pemFile/bundleFile/cspFile`, `Props/C03: keyPair_bundle_use_source_format`, `cspFile_uses_source_format`) -/
+theorem generated_paths_use_mangle (ns name : Name) :
+    (pemEntry (keyPairId ns name)).path = pemFile ns name ∧
+    (crtEntry (bundleId ns name)).path = bundleFile ns name ∧
+    (policyEntry (cspName ns name)).path = cspFile ns name :=
+  ⟨pemEntry_path ns name, crtEntry_path ns name, cspEntry_path ns name⟩
+
+/-- **Every generated path lies directly in one of the five managed folders** — for ALL inputs of `Generate` whose
+names contain no `/` (no Kubernetes name does): key pair and bundle ids, snippet names, policy file names of any
+number and shape, OSS and Plus. This is the hypothesis `PathsManaged` of `crash_then_clear` and of the control-plane
+theorems, now a theorem about the generator model. -/
+theorem generated_paths_managed (g : GenIn) (hs : SlashFree g) :
+    (∀ pt ∈ generatedPaths g, dirOf (String.ofList pt.1) ∈ managedFolders) ∧
+    ∀ c, PathsManaged (generatedFiles g c) := by
+  refine ⟨fun pt hpt => ?_, fun c f hf => ?_⟩
+  · obtain ⟨e, he, rfl⟩ := List.mem_map.1 hpt
+    exact entry_managed g hs e he
+  · obtain ⟨e, he, rfl⟩ := List.mem_map.1 hf
+    exact entry_managed g hs e he
+
+example : SlashFree sampleObjs.toIn := slashFree_toIn _ sampleObjs_legal
+
+/-- the hypothesis cannot be dropped: an id with a slash leaves the managed folders (it would neither be cleared at
+start-up nor, the sub-directory missing, be creatable) -/
+example :
+    let g : GenIn := ⟨["a/b".toList], [], [], [], false, false, false, false⟩
+    (generatedPaths g).head?.map (fun pt => dirOf (String.ofList pt.1)) = some "/etc/nginx/secrets/a" := by
+  decide +kernel
+
+/-- **Distinct objects give distinct paths**: for Kubernetes-legal namespaces and names (no `_`, no `/`) and
+distinct key-pair Secrets / bundle ConfigMaps, no two files of the generated set share a path — whatever the
+multiplicity of snippets and policies (they are deduplicated by destination), OSS or Plus. -/
+theorem generated_paths_nodup (o : Objs) (hl : Legal o) :
+    ((generatedPaths o.toIn).map (·.1)).Nodup ∧ ∀ c, ((generatedFiles o.toIn c).map (·.path)).Nodup := by
+  have hp := paths_nodup o hl
+  refine ⟨?_, fun c => ?_⟩
+  · have : (generatedPaths o.toIn).map (·.1) = (generatedEntries o.toIn).map Entry.path := by
+      simp [generatedPaths, List.map_map, Function.comp]
+    rw [this]; exact hp
+  have : (generatedFiles o.toIn c).map (·.path) = ((generatedEntries o.toIn).map Entry.path).map String.ofList := by
+    simp [generatedFiles, List.map_map, Function.comp]
+  rw [this]
+  exact nodup_map_of_inj_on _ _ hp (fun a _ b _ e => String.ofList_injective e)
+
+/-- without the legality of the names the statement is false: `_` in a namespace makes two Secrets collide
+(the collision C03 registers for the ids; here it means one PEM file for two key pairs) -/
+theorem generated_paths_nodup_false :
+    let o : Objs := { sampleObjs with keyPairs := [("a_b".toList, "c".toList), ("a".toList, "b_c".toList)] }
+    o.keyPairs.Nodup ∧ ¬ ((generatedPaths o.toIn).map (·.1)).Nodup := by decide +kernel
+
+/-- **Secret files have the secret type.** (i) For arbitrary slash-free ids: the file at the PEM path of every key
+pair is `TypeSecret`. (ii) For legal objects: a generated file is `TypeSecret` IFF its path is a secret path (PEM of
+a key pair, NGINX Plus token, mgmt client certificate material); so no key material is ever written under the
+world-readable mode, and `modeOf .secret` has no bit for others. -/
+theorem secret_files_have_secret_type :
+    (∀ (g : GenIn), SlashFree g → ∀ pt ∈ generatedPaths g, ∀ id ∈ g.keyPairIds,
+        pt.1 = (pemEntry id).path → pt.2 = .secret) ∧
+    (∀ (o : Objs), Legal o → ∀ pt ∈ generatedPaths o.toIn,
+        (pt.2 = .secret ↔ pt.1 ∈ secretPaths o.toIn)) ∧
+    modeOf .secret % 8 = 0 := by
+  refine ⟨fun g hs pt hpt id hid hp => ?_, fun o hl pt hpt => ?_, by decide⟩
+  · obtain ⟨e, he, rfl⟩ := List.mem_map.1 hpt
+    exact pem_typ_secret g hs e he id hid hp
+  · obtain ⟨e, he, rfl⟩ := List.mem_map.1 hpt
+    exact ⟨secret_typ_path _ e he, secret_path_typ o hl e he⟩
+
+example : (secretPaths sampleObjs.toIn).map String.ofList =
+    ["/etc/nginx/secrets/ssl_keypair_default_cafe-secret.pem", "/etc/nginx/secrets/ssl_keypair_team-a_tls.example.com.pem",
+     "/etc/nginx/secrets/license.jwt", "/etc/nginx/secrets/mgmt-ca.crt", "/etc/nginx/secrets/mgmt-tls.crt",
+     "/etc/nginx/secrets/mgmt-tls.key"] := by decide +kernel
+
+/-- **Generate, then replace.** Take ANY legal object set, ANY contents, ANY tracked state (any history of failed
+or crashed calls) and ANY fault schedule: if `ReplaceFiles` of the generated set succeeds, then `lastWrittenPaths`
+is the generated path list, every generated file is on disk with exactly its content and the mode of its type, the
+PEM file of every key pair is not world-readable, every generated path lies in a managed folder, and outside the
+bootstrap files nothing else is on disk. (`replace_ok_exact` with `PathsManaged` and `Nodup` discharged by
+`generated_paths_managed` / `generated_paths_nodup`.) -/
+theorem generate_then_replace_exact (B : List String) (sch : Sched) (s : St) (o : Objs) (c : Name → List Nat)
+    (hl : Legal o) (ht : Tracked B s) (hok : (replaceFiles sch s (generatedFiles o.toIn c)).out = .ok) :
+    let F := generatedFiles o.toIn c
+    let r := replaceFiles sch s F
+    r.st.last = F.map (·.path) ∧
+    (∀ f ∈ F, get r.st.fs f.path = some ⟨f.content, modeOf f.typ⟩) ∧
+    (∀ p ∈ o.keyPairs, get r.st.fs (String.ofList (pemFile p.1 p.2)) =
+        some ⟨c (pemFile p.1 p.2), secretMode⟩) ∧
+    (∀ q, q ∉ B → q ∉ F.map (·.path) → get r.st.fs q = none) ∧
+    PathsManaged F := by
+  intro F r
+  have hnd := (generated_paths_nodup o hl).2 c
+  have hpres := replace_ok_files_present sch s F hnd hok
+  refine ⟨(replace_ok_exact B sch s F ht hok).1, hpres, fun p hp => ?_,
+    fun q hq hn => replace_ok_nothing_else B sch s F ht hok q hn hq,
+    (generated_paths_managed _ (slashFree_toIn o hl)).2 c⟩
+  have hmem : (⟨String.ofList (pemFile p.1 p.2), c (pemFile p.1 p.2), .secret⟩ : File) ∈ F := by
+    refine List.mem_map.2 ⟨pemEntry (keyPairId p.1 p.2), ?_, by rw [pemEntry_path]; rfl⟩
+    exact (mem_generatedEntries _ _).2 (.inl ⟨_, List.mem_map.2 ⟨p, hp, rfl⟩, rfl⟩)
+  simpa [modeOf] using hpres _ hmem
+
+/-- the hypotheses are satisfiable: the sample set replaced without faults on an empty disk -/
+example : (replaceFiles noFaults ⟨[], []⟩ (generatedFiles sampleObjs.toIn fun p => [p.length])).out = .ok :=
+  fault_free_replace_succeeds _ _
+
+/-- a control-plane step whose file set comes from the generator -/
+inductive GStep
+  | replace (sch : Sched) (o : Objs) (c : Name → List Nat)
+  | start (sch : Sched)
+
+def GStep.toStep : GStep → Step
+  | .replace sch o c => .replace sch (generatedFiles o.toIn c)
+  | .start sch => .start sch
+
+def GStep.Legal : GStep → Prop
+  | .replace _ o _ => GenPaths.Legal o
+  | .start _ => True
+
+/-- **The property for the control plane fed by the generator**: `StepManaged` is no longer a hypothesis. From any
+disk inside the managed folders, after any sequence of start-ups and replacements of generated sets under any fault
+schedules (failures, crashes, restarts), a replacement of a generated set that succeeds leaves every generated file
+with its exact content and mode, and nothing else outside the bootstrap files. -/
+theorem system_generated_success_exact (fs0 : FS) (h0 : InFolders fs0) (steps : List GStep)
+    (hlg : ∀ a ∈ steps, a.Legal) (sch : Sched) (o : Objs) (c : Name → List Nat) (hl : Legal o) :
+    let F := generatedFiles o.toIn c
+    let s := sysRun ⟨⟨fs0, []⟩, false⟩ (steps.map GStep.toStep)
+    (sysStep s (.replace sch F)).2 = .ok →
+      (∀ f ∈ F, get (sysStep s (.replace sch F)).1.st.fs f.path = some ⟨f.content, modeOf f.typ⟩) ∧
+      (∀ q, q ∉ ignorePaths → q ∉ F.map (·.path) → get (sysStep s (.replace sch F)).1.st.fs q = none) := by
+  intro F s hok
+  have hm : ∀ a ∈ steps.map GStep.toStep, StepManaged a := by
+    intro a ha
+    obtain ⟨g, hg, rfl⟩ := List.mem_map.1 ha
+    cases g with
+    | replace sch' o' c' => exact (generated_paths_managed _ (slashFree_toIn o' (hlg _ hg))).2 c'
+    | start _ => trivial
+  have hex := system_success_exact fs0 h0 (steps.map GStep.toStep) hm sch F hok
+  refine ⟨fun f hf => ?_, fun q hq hn => ?_⟩
+  · have hnd := (generated_paths_nodup o hl).2 c
+    by_cases hb : f.path ∈ ignorePaths
+    · -- a bootstrap path that is part of the set (main.conf, mgmt.conf, deployment_ctx.json): written like any other
+      have hup : s.up = true := by
+        apply Classical.byContradiction; intro hup
+        simp [sysStep, hup] at hok
+      have hok' : (replaceFiles sch s.st F).out = .ok := by simpa [sysStep, hup] using hok
+      have := replace_ok_files_present sch s.st F hnd hok' f hf
+      simpa [sysStep, hup] using this
+    · rw [hex f.path hb]
+      exact expectAfter_nodup F hnd none f hf
+  · rw [hex q hq]
+    exact expectAfter_not_mem F q none hn
+
+end Generated
 
 end NGF.FileMgr
